@@ -234,11 +234,22 @@ def run(ctx):
     # is Some (try_parse_expr_limited): dropping the `;` in front of such a token glues two statements into one
     # expression.  Whatever decides the drop must therefore be that table applied to the first token of the next
     # statement (or the absence of any token).
-    TABLE = "operators::get_post_operator_precedence"
+    def is_table(fn, c):
+        """a function of the parser crate from a terminal kind to an optional precedence (today
+        `operators::get_post_operator_precedence`, the test `try_parse_expr_limited` continues an expression on)"""
+        if not c.path.startswith("cairo_lang_parser::") or not c.args:
+            return False
+        l = op_local(c.args[0])
+        aty = (fn.local_ty(l) if l is not None else None) or (c.args[0][3] if c.args[0][0] == "k" and len(c.args[0]) > 3 else "")
+        dty = fn.local_ty(place_local(c.dest)) or ""
+        return str(aty).endswith("kind::SyntaxKind") and dty.startswith("core::option::Option<usize")
+    table_names = set()
 
     def consults(fn):
         """calls of the table in fn whose argument is the kind of a token"""
-        return [c for c in fn.calls() if c.path.endswith(TABLE) and c.args and "c:kind" in op_prov(fn, c.args[0], 8)]
+        cs = [c for c in fn.calls() if is_table(fn, c) and "c:kind" in op_prov(fn, c.args[0], 8)]
+        table_names.update(c.name() for c in cs)
+        return cs
 
     def closure_arg(fn, c):
         for a in c.args:
@@ -266,15 +277,17 @@ def run(ctx):
         ok = False
         why = ""
         if how == "call":
-            direct = TABLE in c.path or "c:get_post_operator_precedence" in set().union(*[op_prov(sst, a, 10) for a in c.args] or [set()])
-            via = [g for g in closure_arg(sst, c) if consults(g) and "c:get_post_operator_precedence" in prov(g, 0, 10)]
+            consults(sst)
+            ptoks = set().union(*[op_prov(sst, a, 10) for a in c.args] or [set()])
+            direct = is_table(sst, c) or any("c:" + n in ptoks for n in table_names)
+            via = [g for g in closure_arg(sst, c) if consults(g) and any("c:" + n in prov(g, 0, 10) for n in table_names)]
             ok = bool(direct and consults(sst)) or bool(via)
             why = "result of %s(..)" % c.name()
         elif how == "computed":
             toks = set()
             for o in rvalue_operands(st[2]):
                 toks |= op_prov(sst, o, 12)
-            ok = "c:get_post_operator_precedence" in toks and bool(consults(sst))
+            ok = bool(consults(sst)) and any("c:" + n in toks for n in table_names)
             why = "computed result"
         else:
             # a constant `true`: only where the next statement has no token at all (the None edge of `tokens().next()`)
